@@ -292,9 +292,7 @@ func runC01(r *Runner, g *Gen, tier string) string {
 	n := scale(tier, 4000, 300000)
 	for i := 0; i < n; i++ {
 		cfg := g.pickCfg()
-		t := g.topType(3)
-		b := 40
-		v := g.Value(t, &b)
+		t, v := g.sample(cfg, 3)
 		r.Do(codecOp("rt", cfg, t, "", v.Sexp()), nontrivialVal(t, v), "rt")
 	}
 	return "type-directed generation: random struct/slice/map/pointer/named/recursive type definitions (depth<=3, reflect-built plus a static corpus of named and recursive types) under the four option combinations, boundary-biased values; op = Marshal then Unmarshal into a fresh variable; non-trivial = value contains a non-empty container, non-nil pointer or struct with fields; distinct = distinct op text"
@@ -304,9 +302,7 @@ func runC02(r *Runner, g *Gen, tier string) string {
 	n := scale(tier, 4000, 300000)
 	for i := 0; i < n; i++ {
 		cfg := g.pickCfg()
-		t := g.topType(3)
-		b := 40
-		v := g.Value(t, &b)
+		t, v := g.sample(cfg, 3)
 		if multiEntryMaps(v) {
 			// the encoding is fixed only up to entry order: hand the implementation's bytes to the model
 			res := execOp(codecOp("enc", cfg, t, "", v.Sexp()))
@@ -325,9 +321,7 @@ func runC05(r *Runner, g *Gen, tier string) string {
 	tags := [][]byte{{0x0a}, {0x08}, {0x92, 0x01}, {0xfa, 0xff, 0x01}}
 	for i := 0; i < n; i++ {
 		cfg := g.pickCfg()
-		t := g.topType(3)
-		b := 40
-		v := g.Value(t, &b)
+		t, v := g.sample(cfg, 3)
 		if multiEntryMaps(v) {
 			continue
 		}
